@@ -97,6 +97,7 @@ from ..selftest import V  # noqa: E402
 
 N = "pyrepseq/nn.py"
 VARIANTS = [
+    V("filter-written-as-break", N, "                if dist > threshold:\n                    continue\n                ans.add((i, j, dist))\n                ans.add((j, i, dist))", "                if dist > threshold:\n                    break\n                ans.add((i, j, dist))\n                ans.add((j, i, dist))", rule="C01-DEP/BREAK"),
     V("length-prefilter", N, "            for i, j in combinations(values, 2):\n                if is_custom and", "            for i, j in combinations(values, 2):\n                if len(seqs[i]) != len(seqs[j]):\n                    continue\n                if is_custom and", rule="C01-FGA"),
     V("subset-size-min", N, "combinations(range(_len), edit)", "combinations(range(_len), min(edit, 1))", rule="C01-LNE"),
     V("offset-update", N, "                offset = index+1\n", "                offset = index+edit\n", rule="C01-LNE"),
